@@ -172,3 +172,16 @@ Theorem C03_esc_table_keys_ascii :
   forallb (fun k => negb (starts_esc k) || all_ascii k) table_keys = true.
 Proof. exact esc_table_keys_ascii. Qed.
 Print Assumptions C03_esc_table_keys_ascii.
+
+(* tie of the model's could_be_unfinished_utf8 (the five lead-byte masks and length tests) to
+   the function text in the repository: Gen/Pure.v holds the syntax tree of
+   curtsies.events.could_be_unfinished_utf8 dumped from the Python AST of the working tree on
+   every run, [PyMini.call] is the reference semantics of that Python subset
+   (Spec/PyMini.v); for ALL byte strings they agree (TypeError on the empty one included) *)
+From Curtsies Require Spec.PyMini Gen.Pure Proofs.PureTie.
+Theorem C03_could_be_unfinished_utf8_is_the_repository_function :
+  forall seq : list N,
+    PyMini.call Pure.py_could_be_unfinished_utf8 [PyMini.VBytes seq]
+    = PureTie.embed_bool (could_be_unfinished_utf8 seq).
+Proof. exact PureTie.could_be_unfinished_utf8_tie. Qed.
+Print Assumptions C03_could_be_unfinished_utf8_is_the_repository_function.
